@@ -52,7 +52,6 @@ type signal struct {
 	contDrv  []drvRange
 	procDrv  []drvRange
 	extDrv   bool // top-level input: driven by the caller
-	declKind bool // a wire/reg/integer keyword was seen (ports default to wire)
 }
 
 type combNode struct {
@@ -141,12 +140,11 @@ type Sim struct {
 
 	regOrder []*signal // regs, integers and memories sorted by name (hash / snapshot)
 
-	maxDelta   int
-	maxSettle  int
-	maxLoop    int
-	evalCount  uint64
-	procRuns   uint64
-	hasInitRun bool
+	maxDelta  int
+	maxSettle int
+	maxLoop   int
+	evalCount uint64
+	procRuns  uint64
 }
 
 var bigZero = new(big.Int)
